@@ -85,7 +85,9 @@ func (rf *ReportFeed) Status() []byte {
 	// displayed as non-RTCM messages.)
 	messageDisplay := "\nMessages\n\n"
 	for _, message := range rf.RecentMessages.GetMessages() {
-		messageDisplay += message.String() + "\n"
+		// The display contains a hex dump of the message, including the
+		// data as text, so it must be sanitised like the buffers above.
+		messageDisplay += Sanitise(message.String()) + "\n"
 	}
 
 	reportBody := fmt.Sprintf(reportFormat,
